@@ -18,7 +18,7 @@ from harness.props import _sched_common as SC
 from harness.props import _sched_hardening as H
 
 MANIFEST_ENTRY = {
-    "text": "Lean theorems (Props/C07.lean) prove for the schedule model, for every number of sites and crews, capacity, day count and per-request crew outcome: C07_conservation (the requests taken on a day are, as a permutation, the completed ones plus the ones put back exactly once; every planned request carries a report; the completion counter of the day's year rises by exactly one per completed request), C07_no_duplicates (a site never has two outstanding requests: invariant queued <-> in the queue, queue sites Nodup, proved by induction over arbitrary histories of days, first flags and re-detections), C07_priority (pop order is ascending in (class, rate, counter); class 1 <-> survey in progress, class 3 <-> never planned for routine schedules, so interrupted surveys come before unattended before new requests), C07_fifo (requests put back on one day into the same class keep the plan order and stay behind older entries of that class), C07_minutes / minutes_add_up (running sum of the daily minutes = report minutes, = survey time at completion), applyOutcome_refines_step + minutes_add_up_crew (the outcomes are a refinement of the crew model's surveyStep; with the crew arithmetic 0 < P < S while in progress), C07_routine_waiting_is_new (in routine schedules only new requests ever wait, so the order of waiting requests is stable across days), C07_followup_duplicate_counterexample (without the callers' guarantee in RunOK the follow-up queue does hold duplicates: F13). The model is tied to the real GenericSchedule/StationarySchedule/FollowUpMobileSchedule/Workplan/PriorityQueueWithFIFO/planner classes and Method/ComponentLevelMethod.deploy_crews by day-by-day differential correspondence (exhaustive small histories + random larger runs) on every run; the property's clauses are evaluated directly on the implementation traces and on whole-simulation traces.",
+    "text": "Lean theorems (Props/C07.lean) prove for the schedule model, for every number of sites and crews, capacity, day count and per-request crew outcome: C07_conservation (the requests taken on a day are, as a permutation, the completed ones plus the ones put back exactly once; every planned request carries a report; the completion counter of the day's year rises by exactly one per completed request), C07_no_duplicates (a site never has two outstanding requests: invariant queued <-> in the queue, queue sites Nodup, proved by induction over arbitrary histories of days, first flags and re-detections), C07_priority (pop order is ascending in (class, rate, counter); class 1 <-> survey in progress, class 3 <-> never planned for routine schedules, so interrupted surveys come before unattended before new requests), C07_fifo (requests put back on one day into the same class keep the plan order and stay behind older entries of that class), C07_minutes / minutes_add_up (running sum of the daily minutes = report minutes, = survey time at completion), applyOutcome_refines_step + minutes_add_up_crew (the outcomes are a refinement of the crew model's surveyStep; with the crew arithmetic 0 < P < S while in progress), C07_routine_waiting_is_new (in routine schedules only new requests ever wait, so the order of waiting requests is stable across days), C07_followup_duplicate_counterexample (without the callers' guarantee in RunOK the follow-up queue does hold duplicates: F13). The model is tied to the real GenericSchedule/StationarySchedule/FollowUpMobileSchedule/Workplan/PriorityQueueWithFIFO/planner classes and Method/ComponentLevelMethod.deploy_crews by day-by-day differential correspondence (exhaustive small histories + random larger runs) on every run; the property's clauses are evaluated directly on the implementation traces and on whole-simulation traces. Layer 3 (every run): Method.survey_site (with _determine_if_site_survey_can_be_completed) is translated from the current source to Lean (harness/extract/py2lean.py, crew_src.py -> Generated/CrewSrc.lean) and Props/CrewTie.lean is re-checked: report, crew minutes, returned values and dates after the translated call are Crew.surveyStep / applyStep for all inputs; a method outside the translated subset is a note, a failing tie theorem a broken obligation.",
     "design_ref": "DESIGN.md 5.7, 4.3",
     "note": "trusted: Lean kernel + propext/Classical.choice/Quot.sound; the hand-written schedule model (tied by sampled/exhaustive correspondence, not proof); the heap of queue.PriorityQueue is modelled by its specification (sorted list); what the crews achieve per request and day is an input of the model (the crew arithmetic is C08's model); harness adapters and stubs (site, weather cube)",
     "technique": "Lean 4 invariant proofs over the queue/planner/work-plan model + differential correspondence with the real classes + direct oracle on component and whole-run traces",
